@@ -32,16 +32,25 @@ CLAIMS = {
             "The temporal property is decided completely at the structural level: all 12 call sites, including kernels that cannot be imported here; counting wrapper is the only path to the user likelihood and adds len(samples)."),
     "C18": ("5 C18", "per-iteration path counting of history appends on the CFG (with run-invariant flag splitting), per-call path counting in each concrete mutate(), fresh/resumed pre-loop append analysis, value numbering of appended values",
             "Proves one entry per iteration for every series on every path and class, initial population recorded once on the fresh path only, appended values are this iteration's definitions (four known findings: extra entry from the enlargement mutate)."),
+    "C13": ("5 C13", "writer/reader schema agreement: key-set, sentinel, group/dataset-name, f-string-template and constructor-signature extraction for ten save/load pairs; sibling comparison of the two flow loaders",
+            "Proves that what each writer emits is what its reader consumes (and that empty dicts reach their sentinel, captured **kwargs are re-splatted, every stateful constructor parameter is saved and every key passed on rebuild is a named parameter). Value equality after a round trip is not decided."),
+    "C14": ("5 C14", "guard-term analysis of the artifact writes that precede the sampler call (no file-content-dependent skip, delete-before-rewrite, sampler type updated first)",
+            "Decides one necessary clause -- no stale-artifact guard on /flow and /aspire_config before sampling; the quantification over operation histories is not claimed (state-space exploration, another family)."),
+    "C15": ("5 C15", "field-carry matrix over (concrete class x inherited rebuild method) from value-numbered constructor keywords, with a frozen exception table; dtype-conversion provenance; who-constructs scan inside samplers; no_grad guard on torch flow outputs",
+            "Proves for all 18 (class, method) pairs that every constructor field is carried or deliberately excepted, conversions build in the target namespace with a converted dtype, sampler populations receive the sampler dtype, and torch flow outputs are grad-free. Numerical value preservation is not decided."),
+    "C16": ("5 C16", "value numbering of __getitem__/concatenate keywords per concrete class (one index, one list, same-field guard), carried-not-recomputed evidence, pickle key pairing, to_dict/from_dict key-set agreement",
+            "Proves row alignment of selection and concatenation for every per-sample field of every class, that scalar fields are carried, and that pickle/dict conversions agree on their keys. The reference-model comparison over operation sequences is not decided."),
+    "C19": ("5 C19", "CFG with exceptional edges: save-before-overwrite dominance, restore on all paths from the yield (must-pass-through), both restore branches; __enter__/__exit__ store ordering and guards of PoolHandler",
+            "For these two context managers the structure is the behaviour: every normal or exceptional exit passes the restore, originals are saved before replacement and restored unconditionally first, the pool is closed only on request and exceptions propagate."),
+    "C20": ("5 C20", "random-source provenance: fallback-only construction of fresh generators, effectual-parameter (def-use) analysis, held-generator preservation, third-party kernel API table, JAX key split/advance/single-use path counting, sibling constructor agreement, caller-owned dict aliasing",
+            "Proves the structural necessary conditions of reproducibility (four known findings about minipcn/emcee wiring). Bit-identical output is not decided."),
 }
 
 NA = {
     "C01": "statistical correctness of Monte-Carlo output: no static argument bounds an estimator's distribution; its structural necessary conditions are decided under C02, C03, C04, C05, C08, C10 (DESIGN 5 C01)",
 }
 
-PENDING = {
-    p: "check not built yet in this session (engine under construction); see DESIGN.md section 5"
-    for p in ["C13", "C14", "C15", "C16", "C19", "C20"]
-}
+PENDING = {}
 
 
 def main():
